@@ -308,7 +308,9 @@ def report(prop, tier, seed, t0, results, meta, args):
                 o["status"] = "unknown"
                 unknown.append((h, c))
 
-    known = [k for k in load_known_findings() if k.get("property") == prop and k.get("status", "open") == "open"]
+    # a finding is identified by harness + obligation label; the same obligation can be part of
+    # several properties' checks (e.g. reboot detection under C05 and C07)
+    known = [k for k in load_known_findings() if k.get("status", "open") == "open"]
     violations = []
     known_hit = []
     os.makedirs(os.path.join(VERIF, "replays", prop), exist_ok=True)
